@@ -309,4 +309,33 @@ example : dimInit (.arr (.var "arr_A" false) (.mk true [.lit (.int 6) false, .li
     = "FOR tmp_1 = 0 TO 5 \\ FOR tmp_2 = 0 TO 2 \\ arr_A(tmp_1, tmp_2) := 0 \\ NEXT tmp_2 \\ NEXT tmp_1" := by
   decide
 
+/-! ### when the read filter is installed -/
+
+/-- **the read filter is installed iff some DATA statement - any one, wherever it stands - has an empty item** -/
+theorem read_filter_iff_some_empty_item (evs : List Ev) :
+    hasEmptyData evs = true ↔ ∃ par es, Ev.data (.mk par es) ∈ evs ∧ ∃ e ∈ es, litIsEmptyStr e = true := by
+  unfold hasEmptyData
+  rw [List.any_eq_true]
+  constructor
+  · rintro ⟨ev, hmem, h⟩
+    cases ev with
+    | data items =>
+        cases items with
+        | mk par es =>
+            simp only [List.any_eq_true] at h
+            exact ⟨par, es, hmem, h⟩
+        | raw t => simp at h
+    | _ => simp at h
+  · rintro ⟨par, es, hmem, e, he, hemp⟩
+    exact ⟨_, hmem, by simp only [List.any_eq_true]; exact ⟨e, he, hemp⟩⟩
+
+/-- the decision does not depend on where the DATA statement with the empty item stands: first, in the middle or last -/
+theorem read_filter_position_independent (a b : List Ev) :
+    hasEmptyData (a ++ b) = (hasEmptyData a || hasEmptyData b) := by
+  simp [hasEmptyData, List.any_append]
+
+/-- `DATA 1,,3` followed by `DATA 4`: the filter is installed although the last DATA statement has no empty item -/
+example : hasEmptyData [.data (.mk false [.lit (.flt "1.0") false, .lit (.str "") true, .lit (.flt "3.0") false]),
+    .data (.mk false [.lit (.flt "4.0") false])] = true := by decide
+
 end CocoVerif.Props.C03
